@@ -142,6 +142,28 @@ func TestVerif_C10_AEAD(t *testing.T) {
 				return
 			}
 		}
+		// ---- a forged Open INTO a caller's buffer: whatever the library does with the room behind len(dst), the bytes the caller
+		// already has in dst (the record header, earlier fields) are his; only an in-place destination may be consumed
+		if len(ctBuf) > 0 {
+			fcls := gen.Pick(t, "forgedDst", "full", "room", "room", "exact", "one-short")
+			forged := append([]byte(nil), ctBuf...)
+			forged[gen.Uniform(t, "forgepos2", 0, len(forged)-1)] ^= 0x04
+			fdst, fct, fprefix := c10Dst(t, "forged", fcls, len(c.PT), forged)
+			var ferr error
+			if p := vt.Catch(func() { _, ferr = a.Open(fdst, nonce, fct, aad) }); p != nil {
+				vt.Fail(t, rec, "C10:open:panic:forged", "Open of a forged message into dst class %s panicked: %v\n%s", fcls, p, desc())
+				return
+			}
+			if ferr == nil {
+				vt.Fail(t, rec, "C10:open:forged-accepted", "forged message accepted\n%s", desc())
+				return
+			}
+			if !bytes.Equal(fdst[:len(fprefix)], fprefix) {
+				vt.Fail(t, rec, "C10:open:forged-clobbers-dst", "a rejected Open changed the bytes the caller already had in dst (class %s, len %d cap %d)\nbefore %x\nafter  %x\n%s", fcls, len(fdst), cap(fdst), fprefix, fdst[:len(fprefix)], desc())
+				return
+			}
+			rec.Tally("forged-open-dst:" + fcls)
+		}
 		odst, ct, oprefix := c10Dst(t, "open", openCls, len(c.PT), ctBuf)
 		oinplace := openCls == "inplace" || openCls == "inplace-room"
 		var po []byte
